@@ -461,7 +461,7 @@ def run_c07(ctx):
             fails += [("corpus:" + c.name,) + f[1:] for f in fl]
     # 2. mutants of generated files
     n = ctx.pick(60, 120)
-    m = ctx.pick(200, 5000)
+    m = ctx.pick(200, 1500)
     traces = drv_parallel(drv, "mut", ctx.seed, n, WORK / ("c07-mut-%d" % ctx.seed), extra=["--mutants", str(m)],
                           chunk=ctx.pick(None, 4))
     summaries = []
